@@ -11,7 +11,7 @@ SPEC = dict(
     level="exploration",
     rule=("single steps: ALL start ids of 1..4 digits incl. zero-padded (quick, 11,110) / 1..5 digits (thorough, "
           "111,110) + sampled 6-7 digit ids; chains: repeated bumps feeding each output back as the next input, "
-          "crossing the digit-length expansions; patterns BUILD, YYYY.BUILD, vYYYY0M.BUILD[-TAG], MAJOR.BLD; "
+          "crossing the digit-length expansions; chains of 8 real `update` runs (config + tags served by a fake git, some releases untagged, v2 and {pycalver}) starting just below an expansion; patterns BUILD, YYYY.BUILD, vYYYY0M.BUILD[-TAG], MAJOR.BLD; "
           "non-trivial+distinct = distinct (len before, len after, zero-padded?, pattern) transitions"),
     assumptions=["R3 (ref.next_build) is the README's lexical-id successor; ids that are all 9s are the documented "
                  "maximum and are only required not to be 'bumped' to a smaller/equal value"],
